@@ -15,7 +15,7 @@ def sched_tokens(draw, P):
 
 
 @st.composite
-def op_list(draw, maxlen=8, allow_other=False, allow_singular=False, pmax=4, need_refact=False):
+def op_list(draw, maxlen=8, allow_other=False, allow_singular=False, pmax=4, need_refact=False, prec="d"):
     ops = []; have = False
     L = draw(st.integers(2, maxlen))
     k = 0
@@ -42,7 +42,10 @@ def op_list(draw, maxlen=8, allow_other=False, allow_singular=False, pmax=4, nee
         elif c == "GSSV":
             ops.append("GSSV P=%d nrhs=%d%s" % (P, draw(st.sampled_from([1, 2])), draw(sched_tokens(P))))
         elif c == "OTHER":
-            ops.append("OTHER prec=%s n=%d seed=%d P=%d mode=%s order=%d" % (draw(st.sampled_from("sdcz")), draw(st.integers(1, 14)), draw(st.integers(1, 10 ** 6)),
+            # while factors of the history's own matrix are live, an interleaved system must be of another precision: a
+            # refactorization takes its storage sizes from per-precision static state (outside C08's and C18's claims; see DESIGN)
+            oprec = draw(st.sampled_from([p for p in "sdcz" if (p != prec or not have)]))
+            ops.append("OTHER prec=%s n=%d seed=%d P=%d mode=%s order=%d" % (oprec, draw(st.integers(1, 14)), draw(st.integers(1, 10 ** 6)),
                                                                           draw(st.sampled_from([1, 2])), draw(st.sampled_from(["ok", "ok", "singular"])), draw(st.integers(0, 3))))
         k += 1
     if need_refact and not any(o.startswith("REFACT") for o in ops):
@@ -60,7 +63,7 @@ def hist_case(draw, nmax=30, maxlen=8, allow_other=False, allow_singular=False, 
     tun = mx.fix_tunables(draw(mx.tunables))
     s = {"prec": prec, "n": rec["n"], "m": rec["n"], "stype": "NC", "order": draw(st.sampled_from(["0", "1", "2", "3"]))}
     s.update(tun)
-    ops = draw(op_list(maxlen, allow_other, allow_singular, pmax))
+    ops = draw(op_list(maxlen, allow_other, allow_singular, pmax, False, prec))
     return {"set": s, "entries": entries, "ops": ops, "family": rec["family"]}
 
 
